@@ -3261,6 +3261,17 @@ class SEVM:
                             cond = dst.as_z3() == target
                             new_ex = self.create_branch(ex, cond, target)
                             stack.push(new_ex)
+
+                        # the inputs on which the destination is none of the valid ones halt: they get
+                        # a path of their own, on which the instruction is executed again with a
+                        # concrete invalid destination (the end of the code is never a JUMPDEST)
+                        invalid_cond = And(
+                            [dst.as_z3() != target for target in ex.pgm.valid_jumpdests()]
+                        )
+                        if ex.check(invalid_cond) != unsat:
+                            bad_ex = self.create_branch(ex, invalid_cond, ex.pc)
+                            bad_ex.st.push(BV(len(ex.pgm)))
+                            stack.push(bad_ex)
                     else:
                         raise NotConcreteError(f"symbolic JUMP target: {dst}")
 
